@@ -2640,6 +2640,30 @@ func (c *ChannelArbitrator) resolveContract(currentContract ContractResolver) {
 	log.Tracef("ChannelArbitrator(%v): attempting to resolve %T",
 		c.cfg.ChanPoint, currentContract)
 
+	// If the contract is already resolved, then we stopped after the
+	// resolver checkpointed its final state, but before it was removed
+	// from the set of unresolved contracts. The loop below won't execute
+	// for such a contract, so we'll finish that last step now. Otherwise
+	// the contract would stay in the log forever and the channel would
+	// never be marked as fully resolved.
+	if currentContract.IsResolved() {
+		log.Debugf("ChannelArbitrator(%v): marking already resolved "+
+			"contract %T fully resolved", c.cfg.ChanPoint,
+			currentContract)
+
+		err := c.log.ResolveContract(currentContract)
+		if err != nil {
+			log.Errorf("unable to resolve contract: %v", err)
+		}
+
+		select {
+		case c.resolutionSignal <- struct{}{}:
+		case <-c.quit:
+		}
+
+		return
+	}
+
 	// Until the contract is fully resolved, we'll continue to iteratively
 	// resolve the contract one step at a time.
 	for !currentContract.IsResolved() {
